@@ -128,7 +128,7 @@ def run(ctx):
     # stored bytes parse back to / frame ...).  A case in which ONLY the byte-for-byte comparison with the model's rendering
     # (or the signer-input comparison that depends on it) differs, while every observation-only oracle of the property passes,
     # is model drift: the property held on that case but the theorems no longer describe the code's bytes. It is recorded
-    # and printed as a note, it is not a VIOLATION.
+    # and, when no case violates the property itself, reported as VIOLATION ... no-failing-input-found (broken correspondence).
     sigs = {}
     first = {}
     drift = {}
@@ -165,7 +165,14 @@ def run(ctx):
             "all_mismatches_of_case": [{"step": s_, "on": NODE[prop].get(o, o), "kind": k} for s_, o, k in drift[cid]],
             "meaning": "the bytes the node stores differ from the model's rendering although every oracle of the property passes on them; "
                        "the theorems about Json.render / CloudEvents.enc no longer describe this code", "cases": len(drift)})
-        ctx.log("# NOTE %s model drift in %d cases (bytes differ from the model, property oracles pass): %s" % (prop, len(drift), rp))
+        if sigs:
+            ctx.log("# NOTE %s model drift in %d cases (bytes differ from the model, property oracles pass): %s" % (prop, len(drift), rp))
+        else:
+            # the correspondence no longer checks and the search (the property's own oracles on every explored case) found no
+            # failing input: the property is no longer shown to hold for this code
+            ctx.violations.append({"match": "%s:model-drift" % drv, "replay": rp, "no_input": True,
+                                   "what": "%s: the bytes the node stores differ from the model's rendering in %d cases (the theorems about the model no longer describe this code); "
+                                           "every oracle of the property passes on all explored cases" % (prop, len(drift))})
     ctx.coverage["evaluations"] += summ["cases"]
     ctx.coverage["distinct_nontrivial"] += summ["distinct_nontrivial"]
     ctx.coverage["traces_validated_against_impl"] = ctx.coverage.get("traces_validated_against_impl", 0) + summ["cases"]
